@@ -34,7 +34,7 @@ def shards(tier, seed):
 
 
 def requirements(tier):
-    return {"steps_checked": 800, "shadow_bitwise_checked": 1000, "task_param_checked": 250, "alias_checked": 300,
+    return {"steps_checked": 800, "shadow_bitwise_checked": 1000, "task_param_checked": 250, "alias_checked": 300, "w_grad_recreated_while_caller_holds_the_previous_one": 25,
             "values_unchanged_checked": 400, "repeat_bitwise": 100, "w_create_then_accumulate": 100, "w_accumulate_onto_edited": 80,
             "w_none_after_non_none": 30, "w_mtl_and_bw_on_common_leaf": 60, "w_autograd_interleaved": 80, "w_fresh_created": 300, "w_non_contiguous_parameter": 50, "w_non_contiguous_grad_assigned": 10}
 
@@ -57,6 +57,9 @@ def gen_case(rng, i, max_len=8):
     ns = int(rng.integers(1, 3))
     npool = int(rng.integers(1, 4))
     L = [{"shape": list(P.LEAF_SHAPES[rng.integers(len(P.LEAF_SHAPES))]), "rg": True} for _ in range(ns + npool)]
+    for k in range(1, len(L)):
+        if rng.random() < 0.35:
+            L[k]["shape"] = list(L[int(rng.integers(k))]["shape"])  # same-shaped parameters: sums a + b of parameters become possible
     for d in L:
         if sum(1 for x in d["shape"] if x > 1) >= 2 and rng.random() < 0.4:
             d["nc"] = True  # non-contiguous parameter
@@ -97,6 +100,8 @@ def gen_case(rng, i, max_len=8):
                 continue
             st = {"op": "repeat", "k": [2, 3, 5][int(rng.integers(3))]}
         steps.append(st)
+        if st["op"] == "none" and prev_call is not None and rng.random() < 0.5:
+            steps.append(dict(prev_call))  # zero_grad(set_to_none=True)-style loop: the same call again right after the reset
     return {"dtype": dtype, "vseed": vseed, "ns": ns, "L": L, "A": A, "B": B, "C": C, "steps": steps}
 
 
@@ -164,6 +169,14 @@ def check_case(case, ctx):
     last_call = None
     vio = None
     created_then_acc = False
+    kept = []  # gradient tensors the caller took out of .grad and still holds: (leaf, tensor, value, version)
+
+    def keep(j, old):
+        # (only tensors with a storage of their own: torch.autograd sometimes deposits .grad tensors that are views of one buffer)
+        k = storage_key(old)
+        if any(l2.grad is not None and l2.grad is not old and storage_key(l2.grad) == k for l2 in w.L):
+            return
+        kept.append((j, old, old.detach().clone(), old._version))
 
     def leaf_index(ref):
         return ref[1] if ref[0] == "s" else ns + ref[1]
@@ -282,10 +295,14 @@ def check_case(case, ctx):
         foreign = {storage_key(g_obj): "aggregated vector"}
         for x in w.tensors:
             foreign.setdefault(storage_key(x), "program tensor")
+        for _, old, _, _ in kept:
+            foreign.setdefault(storage_key(old), "an earlier gradient tensor that the caller still holds")
         fresh = [j for j in touched if objs_before is not None and objs_before[j] is None and w.L[j].grad is not None]
         for j in fresh:
             k = storage_key(w.L[j].grad)
             ctx.count("alias_checked")
+            if any(kj == j for kj, _, _, _ in kept):
+                ctx.count("w_grad_recreated_while_caller_holds_the_previous_one")
             if k in foreign:
                 vio = ("grad_aliases_foreign_storage", {"step": label, "leaf": j, "aliases": foreign[k]})
                 return
@@ -308,6 +325,10 @@ def check_case(case, ctx):
         for tt, v, ver in zip(w.tensors, w.values, w.versions):
             if tt._version != ver or not aj.bits_equal(tt.detach(), v):
                 vio = ("tensor_value_or_version_changed", {"step": label, "shape": list(tt.shape)})
+                return
+        for kj, old, val, ver in kept:
+            if old._version != ver or not aj.bits_equal(old.detach(), val):
+                vio = ("gradient_tensor_held_by_the_caller_changed", {"step": label, "leaf": kj, "was": tolist(val), "now": tolist(old)})
                 return
         with warnings.catch_warnings():
             warnings.simplefilter("ignore")
@@ -386,6 +407,7 @@ def check_case(case, ctx):
             elif op == "none":
                 if l.grad is not None:
                     ctx.count("w_none_after_non_none")
+                    keep(j, l.grad)
                 l.grad = None
                 shadow[j] = None
                 hist_flags.discard(("created", j))
@@ -398,6 +420,8 @@ def check_case(case, ctx):
                 fresh = torch.tensor(g.standard_normal(tuple(l.shape)), dtype=torch.float64).to(dtype)
                 if st.get("nc") and fresh.ndim >= 2:
                     fresh = fresh.transpose(0, -1).contiguous().transpose(0, -1)  # a user-assigned .grad with a non-contiguous layout
+                if l.grad is not None:
+                    keep(j, l.grad)
                 l.grad = fresh
                 if not l.grad.is_contiguous():
                     ctx.count("w_non_contiguous_grad_assigned")
